@@ -27,7 +27,7 @@ RULE = (
     "distinct_nontrivial = distinct (workload, ploidy, chains, burn-in, empirical distribution) tuples in which the retained log held at least two distinct genotypes"
 )
 FAULT_KEYS = ["row_permute", "adversarial_choice", "shuffle", "exchange_accepted"]
-PROBE_KEYS = ["long_allele_traces", "long_locus_traces", "summaries_checked", "burn_values", "multi_genotype_logs", "mode_ties", "support_ties", "incongruence_checked", "incongruence_1", "incongruence_2",
+PROBE_KEYS = ["summaries_asked_again", "long_allele_traces", "long_locus_traces", "summaries_checked", "burn_values", "multi_genotype_logs", "mode_ties", "support_ties", "incongruence_checked", "incongruence_1", "incongruence_2",
               "incongruence_tie_skip", "as_array_checked", "ped_individuals", "chains_disagree", "cli_reports_checked", "cli_null_alleles", "cli_allele_frequencies_checked"]
 OPTIONAL_PROBES = {"quick": ("cli_null_alleles",), "thorough": ()}
 COMPONENTS = {
@@ -512,6 +512,26 @@ def check_assemble_trace(ctx, cfg, trace, chains):
         _, dos, _ = post.allele_frequencies(dosage=True)
         if any(not close(d, f * pl) for d, f in zip(dos, freqs)):
             fail(ctx, "allele_frequency_mismatch", "dosage=True is not frequency x ploidy", burn=burn)
+        # history of calls on ONE posterior object: a summary is a functional of the distribution, not of what was asked before
+        # (tape-chosen repeats in tape-chosen order; every answer must equal the first one)
+        first = {"freq": [float(f) for f in freqs], "dos": [float(d) for d in dos], "occ": [float(o) for o in occ], "mode": float(mp)}
+        for _rep in range(ctx.tape.int(0, 2)):
+            which = ctx.tape.int(0, 2)
+            if which == 0:
+                h2, f2, o2 = post.allele_frequencies()
+                again = {"freq": [float(f) for f in f2], "occ": [float(o) for o in o2]}
+            elif which == 1:
+                h2, d2, o2 = post.allele_frequencies(dosage=True)
+                again = {"dos": [float(d) for d in d2], "occ": [float(o) for o in o2]}
+            else:
+                again = {"mode": float(post.mode()[1])}
+            ctx.counters.inc("summaries_asked_again")
+            for k_, v_ in again.items():
+                w_ = first[k_]
+                same = close(v_, w_) if not isinstance(v_, list) else (len(v_) == len(w_) and all(close(x_, y_) for x_, y_ in zip(v_, w_)))
+                if not same:
+                    fail(ctx, "allele_frequency_mismatch" if k_ != "mode" else "mode_mismatch",
+                         "asking the same posterior object again gives another answer for %s (%r, first %r)" % (k_, v_, w_), burn=burn)
         # incongruence
         judge_assemble_incongruence(ctx, lambda thr_: tb.replicate_incongruence(threshold=thr_), chains, burn, support_of, pl, cfg["threshold"])
         ctx.counters.inc("summaries_checked")
